@@ -574,7 +574,19 @@ def r08_5(ctx: Ctx) -> None:
             sb = src_body if isinstance(src_body, str) else (path_of(src_body) if src_body is not None else None)
             ctx.instance("R08.5", fi.where(node), f"col_rel_width inherit: header `{path_of(B)[:60]}` <- widths of `{(sb or path_of(V))[:70]}`")
             if sb is None:
-                ctx.gap("R08.5", f"RTFDocument.__init__: the widths `{path_of(V)[:70]}` a header inherits could not be traced to a body")
+                # not traced to a body: still decided when the header belongs to the generic section of a loop and the value cannot vary with it
+                sec = ob[1] if isinstance(ob, tuple) else None
+                if sec is None and isinstance(B, ElemSym):
+                    hsrc = T.unwrap(B.source, names=("list", "tuple"))
+                    zp = _zip_partner(hsrc.elt.source if isinstance(hsrc, CompSym) and isinstance(hsrc.elt, ElemSym) else hsrc)
+                    sec = zp[0] if zp is not None else None
+                if sec is not None and not T.is_opaque(V) and isinstance(V, (Init, AttrSym, SubSym)) and not any(x is sec for x in tparts(V)):
+                    ctx.violation("R08.5", fi.short, f"col_rel_width inherit: {path_of(B)[:60]}", fi.where(node),
+                                  f"RTFDocument.__init__: the headers of the generic section `{path_of(sec)[:60]}` inherit `{path_of(V)[:50]}`, a value that does not depend on the section "
+                                  "(a local left over from an earlier loop / a fixed body): every section's headers get the widths of one section; headers must inherit a copy of their "
+                                  "own section's body widths")
+                else:
+                    ctx.gap("R08.5", f"RTFDocument.__init__: the widths `{path_of(V)[:70]}` a header inherits could not be traced to a body")
                 continue
             if isinstance(ob, tuple):
                 if any(x is ob[1] for x in tparts(src_body if not isinstance(src_body, str) else V)):
